@@ -478,6 +478,24 @@ def Effective (mem : Mem) (str : Nat) (len : Option Nat) (bs : List Nat) : Prop 
   (∀ i, i < bs.length → bs.getD i 0 = (mem (str + i)).toNat ∧ (mem (str + i)).toNat ≠ 0) ∧
   (len = some bs.length ∨ ((mem (str + bs.length)).toNat = 0 ∧ ∀ l, len = some l → bs.length < l))
 
+/-- Memory holding a buffer (NUL outside it). -/
+def memOfArray (a : Array UInt8) : Mem := fun i => a.getD i 0
+
+/-- The effective bytes of a call on buffer `a` from offset `start` (the runtime oracle's input):
+    `none` when the call's precondition does not hold (start beyond the length, no terminator in the
+    buffer, length beyond the buffer without a terminator before). -/
+def effectiveOf (a : Array UInt8) (len : Option Nat) (start : Nat) : Option (List Nat) :=
+  let bs := (a.toList.map (·.toNat)).drop start
+  match len with
+  | none =>
+    if start ≤ a.size ∧ bs.any (· == 0) then some (bs.takeWhile (· != 0)) else none
+  | some l =>
+    if start > l then none
+    else
+      let win := bs.take (l - start)
+      if win.any (· == 0) then some (win.takeWhile (· != 0))
+      else if l ≤ a.size then some win else none
+
 /-- Decode the whole effective input. -/
 def refScan (width : Nat → Int) : Nat → List Nat → List Ch × Tail × String
   | 0, _ => ([], .err, "fuel")
